@@ -43,6 +43,16 @@ def handle (args : String) : String :=
       | some l => hashF l
       | none => "panic"
     | _, _ => "bad-op"
+  | ["iirc"] :: taps :: [mi, mx] :: input :: [] =>
+    match nats taps, mi.toNat?, mx.toNat?, nats input with
+    | some taps, some mi, some mx, some input =>
+      -- `assert!(min <= max)` of f32::clamp (false for NaN bounds too)
+      if !(f32 mi <= f32 mx) then (if input.isEmpty || taps.isEmpty then hashF [] else "panic")
+      else
+        match iirClampRun f32Ops (clampF32 (f32 mi) (f32 mx)) (taps.map f32) [] (input.map f32) with
+        | some l => hashF l
+        | none => "panic"
+    | _, _, _, _ => "bad-op"
   | [["fftsize", n]] =>
     match n.toNat? with
     | some n => toString (calcFftSize n)
